@@ -19,6 +19,12 @@ import warnings
 import numpy as np
 
 
+NAMES = {'add': 'add', 'sub': 'sub', 'mul': 'mul', 'lt': 'lt', 'eq': 'eq', 'or': 'or_', 'and': 'and_', 'xor': 'xor',
+         'shl': 'lshift', 'shr': 'rshift'}
+INAMES = {'add': 'iadd', 'sub': 'isub', 'mul': 'imul', 'or': 'ior', 'and': 'iand', 'xor': 'ixor',
+          'shl': 'ilshift', 'shr': 'irshift'}
+
+
 def run_tract(toks, rows_of, enc_elem):
     """Tractogram layer: `<id> T <op> ...` -> `<id>\t<ops>\t<step>;...\t` with
     step = <res>#<i>=<streamlines>|<data_per_point['c'] or ~>|<data_per_streamline['m'] or ~>&...
@@ -272,16 +278,30 @@ def main():
                         r = -s
                     else:
                         k = int(fn[1])
-                        name = {'add': 'add', 'mul': 'mul', 'lt': 'lt', 'eq': 'eq'}[fn[0]]
                         if inplace:
-                            r = getattr(operator, 'i' + name)(s, k)
-                            if r is not s:
-                                res = 'err:NotSelf'
+                            r = getattr(operator, INAMES[fn[0]])(s, k)
                         else:
-                            r = getattr(operator, name)(s, k)
-                    if not inplace:
+                            r = getattr(operator, NAMES[fn[0]])(s, k)
+                    if inplace:
+                        # `v <op>= k` rebinds the name to whatever the operator returns
+                        if r is not s:
+                            res = 'ok:rebound'
+                        seqs[int(f[1])] = r
+                    else:
                         seqs.append(r)
                     del r, s
+                elif o == 'opq':
+                    s = seqs[int(f[1])]
+                    t = seqs[int(f[3])]
+                    if f[4] == '1':
+                        r = getattr(operator, INAMES[f[2]])(s, t)
+                        if r is not s:
+                            res = 'ok:rebound'
+                        seqs[int(f[1])] = r
+                    else:
+                        seqs.append(getattr(operator, NAMES[f[2]])(s, t))
+                        r = None
+                    del r, s, t
                 elif o == 'cat':
                     pairs = [p.split(',') for p in f[1].split(';')] if f[1] else []
                     for p in pairs:
